@@ -289,7 +289,7 @@ theorem videoConfig_ok (vm : VideoMeta) (am : AudioMeta) (hcodec : vm.codec ≠ 
   | h264 =>
     have hr : vm.sps.length ≥ 4 := by
       simp only [videoMetaReady, hc, Bool.and_eq_true, decide_eq_true_eq] at hready
-      exact hready.1
+      exact hready.1.1
     match hsps : vm.sps, hr with
     | a :: p :: c :: l :: tail, _ =>
       obtain ⟨body, hrec, hparse⟩ := parseAvcc_avcRecord a p c l tail vm.pps (by rw [← hsps]; exact hs) hp
